@@ -179,8 +179,21 @@ func (c *c05) Execute(env *kernel.Env, raw json.RawMessage, ch *kernel.Choices) 
 	}
 	if h.tx != nil && h.viol == nil {
 		// (a shrunk history may have lost its "end")
-		h.end(true)
-		h.checkAll()
+		func() {
+			defer func() {
+				if r := recover(); r != nil {
+					u, ok := r.(undrivable)
+					if !ok {
+						panic(r)
+					}
+					if out.Trouble == "" {
+						out.Trouble = u.msg
+					}
+				}
+			}()
+			h.end(true)
+			h.checkAll()
+		}()
 	}
 	for k, n := range srv.FaultsFired {
 		if out.Faults == nil {
